@@ -19,14 +19,18 @@ import (
 	"crypto/sha256"
 	"encoding/json"
 	"fmt"
+	"os"
 	"path/filepath"
 	"strings"
 	"sync/atomic"
+	"syscall"
 	"testing"
 	"time"
 
 	"github.com/lestrrat-go/jwx/v2/jwk"
 	ssi "github.com/nuts-foundation/go-did"
+	"github.com/nuts-foundation/go-stoabs/bbolt"
+	"github.com/nuts-foundation/go-stoabs"
 	"github.com/nuts-foundation/go-did/did"
 	"github.com/nuts-foundation/go-did/vc"
 	"github.com/nuts-foundation/nuts-node/audit"
@@ -36,6 +40,7 @@ import (
 	"github.com/nuts-foundation/nuts-node/jsonld"
 	"github.com/nuts-foundation/nuts-node/storage"
 	"github.com/nuts-foundation/nuts-node/test/io"
+	"github.com/nuts-foundation/nuts-node/vcr/credential"
 	"github.com/nuts-foundation/nuts-node/vcr/holder"
 	"github.com/nuts-foundation/nuts-node/vcr/revocation"
 	"github.com/nuts-foundation/nuts-node/vcr/signature"
@@ -114,6 +119,87 @@ func c01Setup(t *testing.T) *c01Fixture {
 func (f *c01Fixture) newVerifier(x *h.Ctx) (verifier.Verifier, *trust.Config) {
 	tc := trust.NewConfig(filepath.Join(x.TempDir(), "trust.yaml"))
 	return verifier.NewVerifier(f.revStore, f.didRes, f.keyRes, f.jsonld, tc, f.statusList), tc
+}
+
+// newVerifierOn returns a real verifier over the given revocation store (see c01FaultStore).
+func (f *c01Fixture) newVerifierOn(x *h.Ctx, store verifier.Store) (verifier.Verifier, *trust.Config) {
+	tc := trust.NewConfig(filepath.Join(x.TempDir(), "trust.yaml"))
+	return verifier.NewVerifier(store, f.didRes, f.keyRes, f.jsonld, tc, f.statusList), tc
+}
+
+// ---------------------------------------------------------------------------------------------------------------------
+// storage faults of the revocation store (fault model of the by-id revocation look-up)
+
+// c01RevStoreFaults: how the revocation store fails once the fault is switched on.
+//
+//	closed           a REAL leia store of the case's own (bbolt file + backup) that has been closed (shutdown while
+//	                 verifications are still being served): the look-up fails with bbolt's "database not open"
+//	io-error         the look-up fails with an I/O error (wrapped the way leia_store.go wraps a failing Find)
+//	timeout          the look-up fails with context.DeadlineExceeded
+//	corrupt-document the look-up finds the documents but one of them does not decode (json error, returned unwrapped as
+//	                 leia_store.go does)
+var c01RevStoreFaults = []string{"closed", "io-error", "timeout", "corrupt-document"}
+
+// c01FaultStore is the verifier's Store with a switchable fault at GetRevocations. Writes always reach the real store
+// underneath, so a revocation stored before the fault IS in the store while the look-up fails.
+type c01FaultStore struct {
+	verifier.Store
+	kind   string // one of c01RevStoreFaults
+	active bool
+	closed bool
+	reads  int // look-ups answered with the fault
+}
+
+// newFaultStore wraps the fixture's shared revocation store, or - for kind "closed" - a fresh real leia store of the
+// case's own (the shared one must survive the case).
+func (f *c01Fixture) newFaultStore(x *h.Ctx, kind string) *c01FaultStore {
+	s := &c01FaultStore{Store: f.revStore, kind: kind}
+	if kind == "closed" {
+		dir := x.TempDir()
+		backup, err := bbolt.CreateBBoltStore(filepath.Join(dir, "backup-revocations.db"), stoabs.WithNoSync())
+		x.NoErr(err, "backup store")
+		rs, err := verifier.NewLeiaVerifierStore(filepath.Join(dir, "revocations.db"), backup)
+		x.NoErr(err, "revocation store")
+		s.Store = rs
+		x.Cleanup(func() {
+			if !s.closed {
+				_ = rs.Close()
+			}
+			_ = backup.Close(context.Background())
+		})
+	}
+	return s
+}
+
+// fail switches the fault on (for good: a closed store stays closed).
+func (s *c01FaultStore) fail(x *h.Ctx) {
+	if s.active {
+		return
+	}
+	s.active = true
+	if s.kind == "closed" {
+		x.NoErr(s.Store.Close(), "close revocation store")
+		s.closed = true
+	}
+}
+
+func (s *c01FaultStore) GetRevocations(id ssi.URI) ([]*credential.Revocation, error) {
+	if !s.active || s.kind == "closed" {
+		r, err := s.Store.GetRevocations(id)
+		if s.active {
+			s.reads++
+		}
+		return r, err
+	}
+	s.reads++
+	switch s.kind {
+	case "timeout":
+		return nil, fmt.Errorf("error while getting revocation by id: %w", context.DeadlineExceeded)
+	case "corrupt-document":
+		return nil, json.Unmarshal([]byte(`{"subject":"`+id.String()+`","date":`), &credential.Revocation{})
+	default:
+		return nil, fmt.Errorf("error while getting revocation by id: %w", &os.PathError{Op: "read", Path: "revocations.db", Err: syscall.EIO})
+	}
 }
 
 // newWallet returns the real wallet (the code behind POST /internal/vcr/v2/holder/vp) over the fixture's key store.
